@@ -6,15 +6,17 @@ import (
 	"fmt"
 	"go/ast"
 	"go/constant"
+	"go/printer"
 	"go/token"
 	"strings"
 )
 
 type lvar struct {
-	lean string
-	t    *gtype
-	c    *cval // function-local constant
-	mut  bool
+	lean  string
+	t     *gtype
+	c     *cval // function-local constant
+	mut   bool
+	fresh bool // local slice created by a conversion ([]rune(s), []byte(s)): elements may be assigned
 }
 
 type tr struct {
@@ -37,6 +39,7 @@ type tr struct {
 	tmp      int
 	loops    int
 	swInLoop int
+	fragIn   map[string]*lvar // fragment mode: source text of an input expression -> variable
 }
 
 // ex is a translated expression.
@@ -205,6 +208,14 @@ func (t *tr) shiftCount(n ast.Node, e ex) (string, bool, error) {
 }
 
 func (t *tr) expr(x ast.Expr) (ex, error) {
+	if t.fragIn != nil {
+		switch x.(type) {
+		case *ast.SelectorExpr, *ast.Ident, *ast.IndexExpr:
+			if v, ok := t.fragIn[trExprText(x)]; ok {
+				return ex{s: v.lean, t: v.t}, nil
+			}
+		}
+	}
 	// constant expressions are folded exactly (Go evaluates them with arbitrary precision)
 	if c, err := t.ctx().evalConst(x, -1, t.constLocals(), t.prefix); err == nil {
 		e, err := constEx(c)
@@ -583,6 +594,13 @@ func (t *tr) convert(n ast.Node, e ex, to *gtype) (ex, error) {
 			return res(wrapInt(to, e.s))
 		}
 		return res(e.s)
+	case from.k == kStr && to.k == kSlice && to.elem.k == kInt && to.elem.bits == 32:
+		return res("(Go.runes " + atom(e.s) + ")") // []rune(s): UTF-8 decoding, invalid bytes give U+FFFD
+	case from.k == kSlice && from.elem.k == kInt && from.elem.bits == 32 && to.k == kStr:
+		return res("(Go.stringOfRunes " + atom(e.s) + ")") // string(rr): UTF-8 encoding, invalid runes give U+FFFD
+	case from.k == kStr && to.k == kSlice && to.elem.k == kUint && to.elem.bits == 8,
+		from.k == kSlice && from.elem.k == kUint && from.elem.bits == 8 && to.k == kStr:
+		return res(e.s) // []byte(s) / string(b): the same bytes (values are immutable here)
 	case from.k == kRuneASCII:
 		return ex{}, t.fail(n, "the element of a range over a string may only be compared with ASCII constants")
 	}
@@ -679,7 +697,11 @@ func (t *tr) call(x *ast.CallExpr) (ex, error) {
 				return ex{}, t.fail(x, "%v", err)
 			}
 			if q != nil {
-				return ex{}, t.fail(x, "call of %s.%s: functions of other packages are not translated", id.Name, fn.Sel.Name)
+				sg, ok := q.fns[fn.Sel.Name]
+				if !ok {
+					return ex{}, t.fail(x, "call of %s.%s, which has not been translated earlier in this run (functions of other packages must be listed in an earlier facts.d entry and their module imported)", id.Name, fn.Sel.Name)
+				}
+				return t.callSig(x, id.Name+"."+fn.Sel.Name, sg, nil, x.Args)
 			}
 			return t.stdCall(x, path, fn.Sel.Name)
 		}
@@ -739,6 +761,10 @@ func (t *tr) callTranslated(x *ast.CallExpr, goName string, recv *ex, args []ast
 		}
 		return ex{}, t.fail(x, "call of unknown function %s", goName)
 	}
+	return t.callSig(x, goName, sg, recv, args)
+}
+
+func (t *tr) callSig(x *ast.CallExpr, goName string, sg *fnSig, recv *ex, args []ast.Expr) (ex, error) {
 	var es []ex
 	if recv != nil {
 		es = append(es, *recv)
@@ -778,4 +804,13 @@ func (t *tr) callTranslated(x *ast.CallExpr, goName string, recv *ex, args []ast
 		return ex{s: "(← " + s + ")", t: rt, partial: true}, nil
 	}
 	return ex{s: "(" + s + ")", t: rt, partial: part}, nil
+}
+
+// exprText prints an expression in a canonical form (used to match fragment inputs and locators).
+func trExprText(x ast.Node) string {
+	var sb strings.Builder
+	if err := printer.Fprint(&sb, token.NewFileSet(), x); err != nil {
+		return ""
+	}
+	return strings.Join(strings.Fields(sb.String()), " ")
 }
